@@ -3,6 +3,9 @@
    [sem] is the priority-ordered list of ALL ways a node can match; [semk]/[findk] is the
    executable continuation-passing search that the extracted model runs. *)
 From Verif Require Import Base.Prelude Model.Tree Model.Spec Proofs.SpecProofs.
+From Verif Require Import Base.Prelude Model.Tree Model.Spec Model.VM Model.Writer
+  Proofs.SpecBoundsProofs Proofs.VMU Proofs.VMUOps2 Proofs.CompileBase Proofs.CompileDefs Proofs.CompileProofs
+  Proofs.CompileExec.
 
 (* The executable search returns exactly the first success of the continuation over the
    priority-ordered list of results (for every node, state, continuation, and every fuel for which
@@ -78,3 +81,68 @@ Example C01_witness :
   (find e 20 r3 true 3 (-1) = m3 /\ findk e 20 r3 true 3 (-1) = m3 /\
    find e 20 r3 true 0 0 = Ok None /\ findk e 20 r3 true 0 0 = Ok None).
 Proof. vm_compute. repeat split; reflexivity. Qed.
+
+(* ===================== interpreter ∘ writer = reference semantics ===================== *)
+(* Link (3) of the C01 chain, for the constructor set CompileDefs.supported (everything except balancing
+   captures; see the header of Proofs/CompileProofs.v): running the emitted fragment delivers exactly the
+   reference semantics' results, in priority order, and then fails back with all stacks restored. *)
+Theorem C01_compile_correct_partial :
+  forall (e : env) (p : program), 0 <= trackcount p -> tlen e <= INF ->
+  forall fuel t s res,
+    Z.of_nat fuel <= INF ->
+    sem e fuel t s = Ok res -> supported t = true -> st_ok e s -> groups_ok (capsize p) t ->
+    forall a tbl T S C M,
+      has_code p a (fst (emit cfg0 t a tbl)) -> (exists w, code_at p (a + csize cfg0 t) = Some w) ->
+      track_ok p T -> caps_rel p (caps s) M -> tbl_ok p (snd (emit cfg0 t a tbl)) ->
+      leadsg e p (a + csize cfg0 t) T S S C M (mkr a 0 (pos s) T S C M) res.
+Proof. exact compile_correct_partial. Qed.
+Print Assumptions C01_compile_correct_partial.
+
+(* The whole program: one attempt of the interpreter (unbounded stacks) ends at the final Stop with the
+   position and captures of Spec.attempt, or with group 0 unset when the attempt fails. *)
+Theorem C01_compile_correct_top_partial :
+  forall (e : env) (p : program), 0 <= trackcount p -> tlen e <= INF ->
+  forall fuel o body t0 r,
+  let root := NCapture o 0 (-1) body in
+  let M0 := repeat [] (Z.to_nat (capsize p)) in
+  let stop := 2 + csize cfg0 root in
+  codes p = fst (compile cfg0 root) -> strings p = snd (compile cfg0 root) ->
+  supported root = true -> groups_ok (capsize p) root -> 0 <= t0 <= tlen e ->
+  Z.of_nat fuel <= INF ->
+  attempt e fuel root t0 = Ok r ->
+  code_at p stop = Some Stop /\
+  exists t T S C M,
+    usteps e p (mk 0 0 t0 [] [] [] M0) (mk stop 0 t T S C M) /\
+    ustep e p (mk stop 0 t T S C M) = Ok (Done (mk stop 0 t T S C M)) /\
+    match r with
+    | Some q => t = pos q /\ caps_rel p (caps q) M /\ matched0 (mk stop 0 t T S C M) = true
+    | None => M = M0 /\ T = [] /\ S = [] /\ C = [] /\ matched0 (mk stop 0 t T S C M) = false
+    end.
+Proof. exact compile_correct_top_partial. Qed.
+Print Assumptions C01_compile_correct_top_partial.
+
+(* The same for the interpreter with its real finite stacks and any backtracking-stack limit L:
+   whenever VM.exec_at returns a state, it is the final Stop state carrying the position and captures
+   of Spec.attempt (what is NOT claimed: that exec_at returns, i.e. enough interpreter fuel, no
+   ErrBacktrackingStackLimit, no capacity fault -- the last is C13's capacity theorem). *)
+Theorem C01_compile_correct_exec_partial :
+  forall (e : env) (p : program), 0 <= trackcount p -> tlen e <= INF ->
+  forall L fuel vfuel o body t0 r s',
+  let root := NCapture o 0 (-1) body in
+  let M0 := repeat [] (Z.to_nat (capsize p)) in
+  let stop := 2 + csize cfg0 root in
+  codes p = fst (compile cfg0 root) -> strings p = snd (compile cfg0 root) ->
+  supported root = true -> groups_ok (capsize p) root -> 0 <= t0 <= tlen e ->
+  Z.of_nat fuel <= INF ->
+  attempt e fuel root t0 = Ok r ->
+  exec_at e p L vfuel t0 = Ok s' ->
+  pc s' = stop /\ mode s' = 0 /\
+  match r with
+  | Some q => tp s' = pos q /\ caps_rel p (caps q) (mcaps s') /\ matched0 s' = true
+  | None => mcaps s' = M0 /\ matched0 s' = false
+  end.
+Proof. exact compile_correct_exec_partial. Qed.
+Print Assumptions C01_compile_correct_exec_partial.
+
+(* non-vacuity: Proofs/CompileProofs.v cc_demo, cc_demo2, cc_demo3 (vm_compute) *)
+Example C01_compile_witness := cc_demo2.
